@@ -17,6 +17,7 @@
 (*   <<"lamn", <<y1, .., yn>>, body>>                                      *)
 (*   <<"self", args>>        a recursive call of the function being typed  *)
 (*   <<"match", x, <<<<case, v or "", body>>, ..>>, <<default>> or <<>>>>  *)
+(*   <<"smatch", x, <<body, ..>>, <<v or "", last body>>>>  a string match  *)
 (* Statements:  <<"let", v, e>>   <<"destr", <<v1, .., vn>>, e>>            *)
 (* A function: [name, params |-> <<names>>, stmts, fin].                    *)
 (*                                                                         *)
@@ -176,6 +177,18 @@ GenE(sigs, e, env, st) ==
              g == Go(1, st)
          IN [t |-> g.ts[1],
              st |-> St(g.st.eqs \o <<<<env[e[2]], Nm(u, targs)>>>> \o [i \in 1..(Len(g.ts) - 1) |-> <<g.ts[1], g.ts[i + 1]>>], g.st.n)]
+    [] e[1] = "smatch" ->                               \* match x with | "a" -> b1 | "b" -> b2 | _ -> bn  (or | v -> bn): x is a string, v too,
+                                                        \* all bodies have one type
+         LET bodies == e[3] \o <<e[4][2]>>
+             envOf(i) == IF i = Len(bodies) /\ e[4][1] # "" THEN Ext(env, e[4][1], TStr) ELSE env
+             RECURSIVE GoS(_, _)
+             GoS(i, st0) == IF i > Len(bodies) THEN [ts |-> <<>>, st |-> st0]
+                            ELSE LET h == GenE(sigs, bodies[i], envOf(i), st0)
+                                     r == GoS(i + 1, h.st)
+                                 IN [ts |-> <<h.t>> \o r.ts, st |-> r.st]
+             g == GoS(1, st)
+         IN [t |-> g.ts[1],
+             st |-> St(g.st.eqs \o <<<<env[e[2]], TStr>>>> \o [i \in 1..(Len(g.ts) - 1) |-> <<g.ts[1], g.ts[i + 1]>>], g.st.n)]
     [] e[1] = "lam" ->
          LET ty == TV(st.n + 1)
              b == GenE(sigs, e[3], Ext(env, e[2], ty), St(st.eqs, st.n + 1))
